@@ -104,6 +104,20 @@ DIRECTIONS = {
         "indexes compared with the wrong one of <, <=, a modulo used for sharding or batching that maps two keys to the same slot. The "
         "error must stay invisible for the common small values and show only at a boundary value, an exact multiple, an empty or "
         "maximal range, an even member count, or after a specific sequence that makes the two sides of the accounting diverge."),
+    "otherfiles": (
+        "many other engineers already produced changes for this property, almost all of them in the same few files. Your change must NOT "
+        "touch any of these files: internal/raft/raft.go, internal/raft/inmemory.go, internal/raft/readindex.go, "
+        "internal/rsm/statemachine.go, internal/rsm/lrusession.go, internal/rsm/rwv.go, request.go, node.go, engine.go, "
+        "internal/transport/chunk.go, internal/transport/snapshot.go, internal/tan/node_states.go, internal/tan/index.go, internal/tan/db.go, "
+        "internal/logdb/cache.go, internal/logdb/db.go. Find ANOTHER non-test source file that takes part in making the property hold - "
+        "for example (whichever are relevant to this property) nodehost.go, snapshotter.go, snapshotstate.go, quiesce.go, queue.go, "
+        "internal/raft/{remote.go,logentry.go,entryutils.go,peer.go,rate limiting}, internal/rsm/{sessionmanager.go,session.go,managed.go,"
+        "taskqueue.go,files.go,offload.go,encoded.go,adapter.go,membership.go,snapshotio.go,chunkwriter.go}, internal/logdb/{sharded.go,"
+        "logreader.go,batch.go,plain.go,key.go,compaction.go,kv/pebble/*.go}, internal/tan/{logdb.go,compaction.go,version_set.go,version.go,"
+        "record.go,open.go,collection.go}, internal/transport/{transport.go,job.go,tcp.go,nodes.go}, internal/server/{environment.go,"
+        "snapshotenv.go,message.go,rate.go,partition.go}, internal/fileutil, internal/utils/dio, raftpb/*.go (hand written codecs), "
+        "client/session.go, config/config.go (validation), tools/import.go - and break the property there with a plausible maintainer "
+        "mistake that needs something specific to manifest. Say in meta.json why that file matters for the property."),
 }
 
 PROMPT = """You are a skeptical senior Go engineer doing mutation-style robustness research on the open-source library lni/dragonboat (a multi-group Raft library in Go). Work ONLY inside your own scratch git worktree of the repository at {wt} (create it with: `git -C /repo worktree add {wt} HEAD`). Do NOT modify /repo itself, and do NOT read, list or use anything under /verif (it is off limits for this task). The sandbox is offline; use `export GOFLAGS=-mod=mod GOPROXY=off GOSUMDB=off GOTOOLCHAIN=local` for every go command. Put scratch files under {out}/ only.
